@@ -12,6 +12,7 @@ THEOREMS = [
     "GmqttVerif.Fed.received_message_published_once",
     "GmqttVerif.Fed.shared_one_in_federation_refuted",
     "GmqttVerif.Fed.shared_lost_refuted",
+    "GmqttVerif.Fed.shared_one_in_federation_partial",
     "GmqttVerif.Fed.remote_retained_clear_refuted",
     "GmqttVerif.Fed.remote_retained_set",
 ]
